@@ -109,6 +109,18 @@ class PeerEndpoint:
                 continue
             chain = d.w.daemon.chain()
             res = None
+            if mp.kind in ('rpc_error', 'proto_error') and m == VERIFY_METHODS[mp.idx % len(VERIFY_METHODS)]:
+                # a server that answers one request of the verification handshake with a JSON-RPC error, or with
+                # a response that is no valid JSON-RPC: the handshake never completes
+                if mp.kind == 'rpc_error':
+                    out = {'jsonrpc': '2.0', 'id': req['id'], 'error': {'code': -32000 - mp.idx % 3,
+                                                                       'message': 'daemon error'}}
+                elif mp.idx % 2:
+                    out = {'jsonrpc': '2.0', 'id': req['id']}
+                else:
+                    out = {'jsonrpc': '2.0', 'id': req['id'], 'result': 1, 'error': {'code': 1, 'message': 'x'}}
+                conn.b_write(json.dumps(out).encode() + b'\n')
+                continue
             if m == 'server.version':
                 res = ['ElectrumX 1.20.2', '1.4.2'] if mp.kind != 'bad_version' else 'nope'
             elif m == 'blockchain.headers.subscribe':
@@ -136,6 +148,10 @@ class PeerEndpoint:
                 self.seen = set()
 
 
+VERIFY_METHODS = ['blockchain.headers.subscribe', 'server.features', 'server.peers.subscribe', 'server.version',
+                  'blockchain.block.header']
+
+
 class PeersDriver(ClientDriver):
 
     def setup(self):
@@ -154,8 +170,8 @@ class PeersDriver(ClientDriver):
             'odd': lambda i: rng.choice([f'100.64.{i}.9', f'100.100.{i}.7', f'100.127.255.{1 + i}', '127.0.0.1', f'169.254.1.{1 + i}', '224.0.0.5',
                                          '0.0.0.0', f'198.51.100.{1 + i}', 'fe80::1', '::1', f'fc00::{1 + i:x}']),
         }
-        kinds = ['good'] * 6 + ['wrong_genesis', 'wrong_height', 'wrong_header', 'not_listed', 'garbage',
-                                'refuse', 'hang', 'bad_version']
+        kinds = ['good'] * 7 + ['wrong_genesis', 'wrong_height', 'wrong_header', 'not_listed', 'garbage',
+                                'refuse', 'hang', 'bad_version', 'rpc_error', 'proto_error']
         n = op['n']
         for i in range(n):
             pool = rng.choice(['a', 'a', 'a', 'b', 'b', 'v6', 'priv', 'odd'])
@@ -227,6 +243,17 @@ class PeersDriver(ClientDriver):
             self.probe('c19.peer_down' if not mp.up else 'c19.peer_up')
         self._when(op, go)
 
+    def op_peer_turn(self, op):
+        """A server that was good forks off / breaks: from now on it fails re-verification."""
+        def go():
+            good = [m for m in self.models if m.kind == 'good']
+            if not good:
+                return
+            mp = good[op['i'] % len(good)]
+            mp.kind = op['kind']
+            self.probe('c19.peer_turned_bad')
+        self._when(op, go)
+
     def op_dns_move(self, op):
         """A host name starts resolving to another address (possibly into a crowded /16)."""
         def go():
@@ -282,7 +309,10 @@ class PeersDriver(ClientDriver):
         w = self.w
         end = w.sim.now + op['h'] * 3600.0
         while w.sim.now < end and w.server is not None:
-            w.run(None, min(end - w.sim.now, w.sim.ch.delay(200.0, 3000.0)))
+            # gaps: mostly minutes to an hour, sometimes only seconds (two lists on either side of one state change)
+            gap = w.sim.ch.delay(200.0, 3000.0) if not op.get('dense') or w.sim.ch.chance(0.5) else \
+                w.sim.ch.delay(1.0, 280.0)
+            w.run(None, min(end - w.sim.now, gap))
             if w.server is None:
                 break
             self.check_peers()
@@ -338,7 +368,12 @@ class PeersDriver(ClientDriver):
                 if not ref_public(host):
                     self.violate('C19', 'not_public', f'advertised peer {host} ({ip_or_host}) is not publicly '
                                  'routable / not a valid public host name')
-                if mp.kind != 'good':
+                if via == 'PeerManager':
+                    # the server's own records at the instant of the call
+                    for p in pm.peers:
+                        if str(p.host) == host and p.bad:
+                            self.violate('C19', 'marked_bad', f'advertised peer {host} is marked bad')
+                if mp.kind != 'good' and not mp.verified:
                     self.violate('C19', 'unverifiable', f'advertised peer {host} is a {mp.kind} server: it can '
                                  'never have been verified')
                 elif not any(now - STALE_SECS - 1.0 <= t for t in mp.verified):
@@ -440,6 +475,9 @@ class PeersFamily(SubsFamily):
                 i = rng.randrange(npeers)
                 if r < 0.3:
                     plan.append(dict(op='peer_flip', i=i, at=at))
+                elif r < 0.36:
+                    plan.append(dict(op='peer_turn', i=i, at=at, kind=rng.choice(
+                        ['wrong_genesis', 'wrong_height', 'wrong_header', 'not_listed', 'rpc_error', 'garbage'])))
                 elif r < 0.5:
                     plan.append(dict(op='announce', i=i, at=at, hostile=rng.random() < 0.3))
                 elif r < 0.65:
@@ -451,7 +489,7 @@ class PeersFamily(SubsFamily):
                                      at=at))
                 else:
                     plan.append(dict(op='mine', n=1, ntx=[1], at=at, seed=rng.getrandbits(32)))
-            plan.append(dict(op='hours', h=rng.choice([0.5, 1.5, 2.0, 3.5])))
+            plan.append(dict(op='hours', h=rng.choice([0.5, 1.5, 2.0, 3.5]), dense=rng.random() < 0.5))
         return dict(family='peers', knobs=k, plan=plan,
                     population=dict(n=npeers, crowd=crowd, big=big, seed=rng.getrandbits(32), seeds=rng.randint(1, 4),
                                     p_onion=rng.choice([0.0, 0.15, 0.5])))
